@@ -74,7 +74,7 @@ def build_records(quick: bool, seed: int) -> list[dict[str, Any]]:
         hs = []
         for n, h in enumerate(handlers):
             hid = f'h{n + 1}'
-            spec = dict(id=hid, typ=h['typ'], ops=list(h.get('ops') or []), sub=h.get('sub') or '', outcome=h['outcome'], flt=h.get('flt', ''),
+            spec = dict(id=hid, typ=h['typ'], ops=list(h.get('ops') or []), sub=h.get('sub') or '', outcome=h['outcome'], flt=h.get('flt', ''), ver=h.get('ver', ''),
                         msg=f'msg-{hid}', code=400 + n + 1 if h['outcome'] in ('adm', 'adm2') else 0, warn=h.get('warn', ''),
                         instr=enc(h['instr']) if h.get('instr') is not None else {'t': 'n'}, fns=list(h.get('fns', [])))
             hs.append(spec)
@@ -120,8 +120,12 @@ def build_records(quick: bool, seed: int) -> list[dict[str, Any]]:
                        'fld_present': dict(field='spec.a'), 'fld_eq1': dict(field='spec.a', value=1), 'fld_absent': dict(field='spec.a', value=kopf.ABSENT),
                        'fld_cb1': dict(field='spec.a', value=lambda v, **_: v == 1),
                        'when_F': dict(when=lambda **_: False), 'when_T': dict(when=lambda **_: True)}[h.get('flt', '')])
-            dec(*R, **kw)(mk())
+            dec(*((R[0], h['ver'], R[2]) if h.get('ver') else (R[0], R[2])), **kw)(mk())
         insights = references.Insights(); insights.webhook_resources.add(res)
+        rver = review.get('ver', R[1])
+        if review.get('ver'):       # a kind served in two versions: v1 (the preferred one) and v1beta1
+            import dataclasses as _dc
+            insights.webhook_resources.add(_dc.replace(res, version='v1beta1', preferred=False))
         body = copy.deepcopy(BODY)
         # `oldmod`: the old object of the review differs from the new one in what the filters look at (no label l, no spec.a)
         older = copy.deepcopy(BODY)
@@ -130,8 +134,8 @@ def build_records(quick: bool, seed: int) -> list[dict[str, Any]]:
         if review.get('newmod'):
             del body['metadata']['labels']['l']; del body['spec']['a']
         request = {'apiVersion': 'admission.k8s.io/v1', 'kind': 'AdmissionReview',
-                   'request': {'uid': 'uid1', 'kind': {'group': R[0], 'version': R[1], 'kind': 'Thing'},
-                               'resource': {'group': R[0], 'version': R[1], 'resource': R[2]}, 'operation': review['op'],
+                   'request': {'uid': 'uid1', 'kind': {'group': R[0], 'version': rver, 'kind': 'Thing'},
+                               'resource': {'group': R[0], 'version': rver, 'resource': R[2]}, 'operation': review['op'],
                                'userInfo': {'username': 'u'}, 'object': body if review['op'] != 'DELETE' else None,
                                'oldObject': older if review['op'] != 'CREATE' else None, 'dryRun': False}}
         if review['sub']: request['request']['subResource'] = review['sub']
@@ -151,7 +155,7 @@ def build_records(quick: bool, seed: int) -> list[dict[str, Any]]:
                                         'from': pointer_tokens(op['from']) if 'from' in op else []})
         except Exception as e:
             resp['raised'] = type(e).__name__
-        recs.append({'handlers': hs, 'review': {'op': review['op'], 'sub': review['sub'] or '', 'webhook': review['webhook'] or ''},
+        recs.append({'handlers': hs, 'review': {'op': review['op'], 'sub': review['sub'] or '', 'webhook': review['webhook'] or '', 'ver': rver},
                      'body': enc(body if review['op'] != 'DELETE' else older), 'resp': resp, 'ran': list(ran)})
 
     async def all_cases():
@@ -160,6 +164,11 @@ def build_records(quick: bool, seed: int) -> list[dict[str, Any]]:
         for h in sel_cases:
             for op, sub, hint in itertools.product(['CREATE', 'UPDATE', 'DELETE'], [None, 'status'], [None, 'h1', 'h2']):
                 await one([h, dict(typ='validating', outcome='ok')], {'op': op, 'sub': sub, 'webhook': hint})
+        # a kind served in two versions, handlers that name a version or none: a review is served by the handlers of the version it is about
+        for rver_, (v1, v2), (o1, o2) in itertools.product(['v1', 'v1beta1'], [('', 'v1beta1'), ('v1', 'v1beta1'), ('v1beta1', ''), ('v1', ''), ('v1beta1', 'v1beta1')],
+                                                           [('ok', 'adm'), ('adm', 'ok'), ('ok', 'ok')]):
+            await one([dict(typ='mutating', outcome=o1, instr=INSTRS[1], warn='w1', ver=v1), dict(typ='validating', outcome=o2, warn='w2', ver=v2)],
+                      {'op': 'UPDATE', 'sub': None, 'webhook': None, 'ver': rver_})
         # filters are judged on the reviewed object (the new one; the old one when it is a deletion), whatever the other one looks like
         for flt, typ, op, (oldmod, newmod), out in itertools.product(['lab_eq', 'lab_absent', 'fld_present', 'fld_eq1', 'fld_absent', 'fld_cb1', 'when_F', 'when_T'],
                                                                      ['validating', 'mutating'], ['CREATE', 'UPDATE', 'DELETE'],
